@@ -27,6 +27,7 @@ type shared struct {
 	uq    *univariate.QuotientRing
 	br    *bivariate.QuotientRing
 	bq    *bivariate.QuotientRing
+	bq2   *bivariate.QuotientRing // quotient by a principal ideal (a plane curve), nothing asked of its ideal before
 	ops   []ff.Element           // shared error-free operands, used only as arguments
 	upoly *univariate.Polynomial // shared operand
 	bpoly *bivariate.Polynomial
@@ -68,6 +69,15 @@ func mkShared(q uint, tables bool) *shared {
 		panic(err)
 	}
 	s.bq, err = s.br.Quotient(bid)
+	if err != nil {
+		panic(err)
+	}
+	curve := s.br.PolynomialFromUnsigned(map[[2]uint]uint{{0, 2}: 1, {3, 0}: 1, {0, 0}: 1})
+	cid, err := s.br.NewIdeal(curve)
+	if err != nil {
+		panic(err)
+	}
+	s.bq2, err = s.br.Quotient(cid)
 	if err != nil {
 		panic(err)
 	}
@@ -137,6 +147,8 @@ func work(s *shared, seed int64, iters int) string {
 		}
 		qq := s.bq.PolynomialFromUnsigned(map[[2]uint]uint{{3, 1}: 1, {1, 2}: uint(rng.Intn(4) + 1), {0, 0}: 1})
 		sb.WriteString(qq.Times(qq).String())
+		qc := s.bq2.PolynomialFromUnsigned(map[[2]uint]uint{{1, 3}: 1, {2, 2}: uint(rng.Intn(4) + 1), {0, 0}: 1})
+		sb.WriteString(qc.Times(qc).String())
 		if r, err := q2.Rem(q); err == nil {
 			sb.WriteString(r.String())
 		}
